@@ -129,6 +129,9 @@ pub fn op_provision<M: GseDecapMemory>(sh: &Shape, small: bool) {
         }
         Err(_) => assert!(false, "C17.refused_buffer_handed_back"),
     }
+    if g.nfree <= 3 {
+        probe_capacity(&mut m, &mut g, sh.s);
+    }
     drain_and_check(&mut m, &g, sh.s);
     core::mem::forget(m);
 }
@@ -160,6 +163,9 @@ pub fn op_new_pdu<M: GseDecapMemory>(sh: &Shape) {
             kani::cover!(true, "underflow");
         }
     }
+    if g.nfree <= 3 {
+        probe_capacity(&mut m, &mut g, sh.s);
+    }
     drain_and_check(&mut m, &g, sh.s);
     core::mem::forget(m);
 }
@@ -190,6 +196,9 @@ pub fn op_take<M: GseDecapMemory>(sh: &Shape) {
             kani::cover!(g.slot[idx].is_none(), "empty_slot");
         }
         Err(_) => assert!(false, "C17.take_error_kind"),
+    }
+    if g.nfree <= 3 {
+        probe_capacity(&mut m, &mut g, sh.s);
     }
     drain_and_check_labelled(&mut m, &g, sh.s);
     core::mem::forget(m);
@@ -275,6 +284,9 @@ pub fn op_save<M: GseDecapMemory>(sh: &Shape) {
             assert!(g.slot[slot].is_some(), "C17.save_into_empty_slot_accepted");
             kani::cover!(true, "refused");
         }
+    }
+    if g.nfree <= 3 {
+        probe_capacity(&mut m, &mut g, sh.s);
     }
     drain_and_check(&mut m, &g, sh.s);
     core::mem::forget(m);
